@@ -301,3 +301,117 @@ Example C18_witness_recovered :
    match channel_view (AOk [ex_p 49] 0) (fun _ => FOk [Some (ex_topic [Some (ex_chan [99%N] 5 7 false); None])]) [116%N] [99%N] with
    | Ok (VOk v false) => true | _ => false end) = (true, true).
 Proof. vm_compute. reflexivity. Qed.
+
+(* ------------------------------------------------------------------ the e2e latency aggregates *)
+(* ChannelStats.Add / TopicStats.Add also merge the nodes' end-to-end latency percentiles
+   (model/Quantile.v: exact rationals, the division written as the partial operation it is). *)
+From Coq Require Import QArith.
+From NSQV Require Import model.Quantile proofs.QuantileProofs.
+Open Scope Q_scope.
+
+(* for ANY nodes -- absent blocks, null entries, any counts (zero on some or on all nodes),
+   any percentile sets -- the aggregate of the channel view and the topic view's own aggregate
+   are computed without a panic and without a division by zero (so every number is finite and
+   the view can be encoded): the guarded code computes the plain merge *)
+Theorem C18_e2e_never_undefined : forall nodes,
+  e2e_of_nodes nodes =
+  Ok (match nodes with
+      | [] => None
+      | _ => Some (mkEA (node_count nodes) (map Some (merge_all [] (node_values nodes))))
+      end).
+Proof. exact e2e_of_nodes_total. Qed.
+Print Assumptions C18_e2e_never_undefined.
+
+(* the channels of the topic view start from the first node's decoded block: the same, provided
+   that block holds no null entry; and from the second node's on when the first has none *)
+Theorem C18_e2e_topic_channel : forall c ps nodes,
+  e2e_of_topic_channel (Some (mkE2e c (map Some ps)) :: nodes) =
+  Ok (Some (mkEA (count_from c nodes) (map Some (merge_all (map (dec1 c) ps) (node_values nodes))))).
+Proof. exact e2e_of_topic_channel_total. Qed.
+Print Assumptions C18_e2e_topic_channel.
+
+Theorem C18_e2e_topic_channel_first_nil : forall nodes,
+  e2e_of_topic_channel (None :: nodes) = e2e_of_nodes nodes.
+Proof. exact e2e_of_topic_channel_first_nil. Qed.
+Print Assumptions C18_e2e_topic_channel_first_nil.
+
+(* per quantile k: an entry iff some node lists k; count = the sum of the counts, max = the
+   largest value, and, counts not being negative, average * count = sum of count * value: the
+   documented weighted mean whenever something was counted, 0 when nothing was *)
+Theorem C18_e2e_weighted_mean : forall values k,
+  let m := mine k values in
+  match find_q k (merge_all [] values) with
+  | None => m = []
+  | Some e =>
+      m <> [] /\ pe_q e == k /\
+      pe_count e == sumQ (map (oget pe_count) m) /\
+      pe_max e = maxQ 0 (map (oget pe_max) m) /\
+      ((forall v, In v m -> 0 <= oget pe_count v) ->
+         pe_avg e * pe_count e == sumQ (map (fun v => oget pe_count v * oget pe_avg v) m) /\
+         (0 < pe_count e ->
+            pe_avg e == sumQ (map (fun v => oget pe_count v * oget pe_avg v) m) / sumQ (map (oget pe_count) m))) /\
+      (pe_count e == 0 -> pe_avg e == 0)
+  end.
+Proof. exact e2e_merge_spec. Qed.
+Print Assumptions C18_e2e_weighted_mean.
+
+Theorem C18_e2e_merge_onto : forall p values k cur, find_q k p = Some cur ->
+  let m := mine k values in
+  exists e, find_q k (merge_all p values) = Some e /\ pe_q e = pe_q cur /\
+    pe_count e == pe_count cur + sumQ (map (oget pe_count) m) /\
+    pe_max e = maxQ (pe_max cur) (map (oget pe_max) m) /\
+    (0 <= pe_count cur -> (forall v, In v m -> 0 <= oget pe_count v) ->
+       pe_avg e * pe_count e == pe_avg cur * pe_count cur + sumQ (map (fun v => oget pe_count v * oget pe_avg v) m)) /\
+    (m <> [] -> pe_count e == 0 -> pe_avg e == 0).
+Proof. exact e2e_merge_onto. Qed.
+Print Assumptions C18_e2e_merge_onto.
+
+Theorem C18_e2e_untouched : forall p values k, mine k values = [] ->
+  find_q k (merge_all p values) = find_q k p.
+Proof. exact e2e_merge_untouched. Qed.
+Print Assumptions C18_e2e_untouched.
+
+(* one entry per quantile *)
+Theorem C18_e2e_distinct : forall vs p, distinct_q p = true -> distinct_q (merge_all p vs) = true.
+Proof. exact merge_all_distinct. Qed.
+Print Assumptions C18_e2e_distinct.
+
+(* none of it depends on the order in which the nodes are merged *)
+Theorem C18_e2e_order_independent : forall values values' k e e', Permutation values values' ->
+  find_q k (merge_all [] values) = Some e -> find_q k (merge_all [] values') = Some e' ->
+  pe_count e == pe_count e' /\
+  ((forall v, In v values -> 0 <= oget pe_count v) -> 0 < pe_count e -> pe_avg e == pe_avg e') /\
+  (pe_count e == 0 -> pe_avg e == pe_avg e').
+Proof. exact e2e_merge_order. Qed.
+Print Assumptions C18_e2e_order_independent.
+
+(* the statements of E2eProcessingLatencyAggregate.Add and of UnmarshalJSON's loop the model
+   was written against, regenerated from the repository on every run *)
+Theorem C18_quantile_source_shapes :
+  quantile_add_body = quantile_add_expected /\ quantile_unmarshal_loop = quantile_unmarshal_expected.
+Proof. exact quantile_shapes_current. Qed.
+Print Assumptions C18_quantile_source_shapes.
+
+(* non-vacuity: idle nodes (count 0 everywhere) give count 0 / average 0; two busy nodes with
+   the same values give their common value and the sum of the counts; the division the zero
+   test protects is 0 / 0; a null entry in the first node's block of a topic-view channel *)
+Example C18_witness_e2e_idle :
+  let idle := Some (mkE2e 0 [Some (mkPct (99 # 100) 0); Some (mkPct (1 # 2) 0)]) in
+  let busy := Some (mkE2e 3 [Some (mkPct (99 # 100) 1200); Some (mkPct (1 # 2) 400)]) in
+  (match e2e_of_nodes [idle; idle] with
+   | Ok (Some e) => map (fun p => (Qeq_bool (oget pe_count p) 0, Qeq_bool (oget pe_avg p) 0)) (ea_pcts e)
+   | _ => [] end,
+   match e2e_of_nodes [idle; busy; None; busy] with
+   | Ok (Some e) => map (fun p => (Qeq_bool (oget pe_count p) 6, Qeq_bool (oget pe_avg p) (oget pe_max p))) (ea_pcts e)
+   | _ => [] end)
+  = ([(true, true); (true, true)], [(true, true); (true, true)]).
+Proof. exact e2e_witness_idle. Qed.
+
+Example C18_witness_e2e_division : fdiv ((0 - 0) * 0) (0 + 0) = Recovered.
+Proof. exact e2e_witness_division. Qed.
+
+Example C18_witness_e2e_null_entry :
+  (e2e_of_topic_channel [Some (mkE2e 1 [None]); Some (mkE2e 1 [None])],
+   match e2e_of_nodes [Some (mkE2e 1 [None]); Some (mkE2e 1 [None])] with Ok (Some _) => true | _ => false end)
+  = (Recovered, true).
+Proof. exact e2e_witness_null_entry. Qed.
